@@ -295,7 +295,74 @@ func genProgram(rng *vh.Rand) program {
 	return p
 }
 
+// deadFromStart: the network never delivers a single datagram and nobody calls
+// Stop: the muxer's own idle time-out has to end everything. Create, Close and
+// WaitForClose return within the bound, then Stop does.
+func deadFromStart(r *vh.Runner, c *vh.Case, i int) {
+	rng := vh.NewRand(r.Seed, "c16-dead", i)
+	cfgTimeout := 1500 * time.Millisecond
+	bound := cfgTimeout + 13*time.Second
+	nw := msgnet.NewPair()
+	nw.SetPolicy(func(dir, seq int, data []byte) []msgnet.Delivery { return nil })
+	A := tubes.Client(nw.A, &tubes.Config{Timeout: cfgTimeout, Log: quietLog()})
+	B := tubes.Server(nw.B, &tubes.Config{Timeout: cfgTimeout, Log: quietLog()})
+	reliable := rng.Bool()
+	closeFirst := rng.Bool()
+	what := "unreliable"
+	if reliable {
+		what = "reliable"
+	}
+	fail := func(call string) {
+		c.Violate("C16:call-does-not-return:"+call+":network-dead-from-the-start", map[string]any{"tube": what, "bound": bound.String(), "close_before_create_returned": closeFirst})
+	}
+	var tube tubes.Tube
+	created := bub.Go(func() {
+		if reliable {
+			if t, err := A.CreateReliableTube(5); err == nil {
+				tube = t
+			}
+		} else {
+			if t, err := A.CreateUnreliableTube(5); err == nil {
+				tube = t
+			}
+		}
+	})
+	if !bub.Within(created, bound) {
+		fail("Muxer.CreateTube")
+		return
+	}
+	r.Count("evaluations", 1)
+	r.Count("dead_from_start:"+what, 1)
+	r.Nontrivial(fmt.Sprintf("dead|%d", i))
+	if tube != nil {
+		if !bub.Within(bub.Go(func() { tube.Close() }), bound) {
+			fail("Tube.Close")
+			return
+		}
+		if !bub.Within(bub.Go(func() {
+			switch t := tube.(type) {
+			case *tubes.Reliable:
+				t.WaitForClose()
+			case *tubes.Unreliable:
+				t.WaitForClose()
+			}
+		}), bound) {
+			fail("Tube.WaitForClose")
+			return
+		}
+	}
+	if !bub.Within(bub.Go(func() { A.Stop(); B.Stop() }), bound) {
+		fail("Muxer.Stop")
+	}
+}
+
 func genC16(r *vh.Runner) {
+	nd := r.Pick(8, 200)
+	for i := 0; i < nd; i++ {
+		r.Case(fmt.Sprintf("dead-from-start/%d", i), map[string]any{"case": i}, func(c *vh.Case) {
+			c.Bubble(func() { deadFromStart(r, c, i) })
+		})
+	}
 	n := r.Pick(480, 24000)
 	realTime := os.Getenv("VERIF_REALTIME") == "1"
 	for i := 0; i < n; i++ {
